@@ -1,0 +1,73 @@
+//go:build verif
+
+package exec
+
+// Add-only verification hooks for property C09 (combining buffers). Thin
+// wrappers over unexported identifiers; no behaviour of their own.
+
+import (
+	"context"
+
+	"github.com/grailbio/bigslice/frame"
+	"github.com/grailbio/bigslice/slicefunc"
+	"github.com/grailbio/bigslice/sliceio"
+	"github.com/grailbio/bigslice/slicetype"
+)
+
+// VerifC09HashSeed is the seed combine() hashes keys with.
+const VerifC09HashSeed uint32 = hashSeed
+
+// VerifC09Frame wraps a *combiningFrame.
+type VerifC09Frame struct{ c *combiningFrame }
+
+// VerifC09MakeCombiningFrame is makeCombiningFrame(typ, comb, n, nscratch).
+func VerifC09MakeCombiningFrame(typ slicetype.Type, comb slicefunc.Func, n, nscratch int) *VerifC09Frame {
+	return &VerifC09Frame{makeCombiningFrame(typ, comb, n, nscratch)}
+}
+
+func (f *VerifC09Frame) Combine(fr frame.Frame) { f.c.Combine(fr) }
+func (f *VerifC09Frame) Compact() frame.Frame   { return f.c.Compact() }
+func (f *VerifC09Frame) Len() int               { return f.c.Len() }
+func (f *VerifC09Frame) Cap() int               { return f.c.Cap() }
+func (f *VerifC09Frame) Threshold() int         { return f.c.threshold }
+func (f *VerifC09Frame) Mask() int              { return f.c.mask }
+
+// Hits returns a copy of the hit counters, one per slot.
+func (f *VerifC09Frame) Hits() []int { return append([]int(nil), f.c.hits...) }
+
+// Slots returns the view data[0:cap] (the hash table rows, stale rows included).
+func (f *VerifC09Frame) Slots() frame.Frame { return f.c.data.Slice(0, f.c.cap) }
+
+// VerifC09Combiner wraps a *combiner.
+type VerifC09Combiner struct{ c *combiner }
+
+// VerifC09NewCombiner is newCombiner(typ, name, comb, targetSize).
+func VerifC09NewCombiner(typ slicetype.Type, name string, comb slicefunc.Func, targetSize int) (*VerifC09Combiner, error) {
+	c, err := newCombiner(typ, name, comb, targetSize)
+	if err != nil {
+		return nil, err
+	}
+	return &VerifC09Combiner{c}, nil
+}
+
+func (m *VerifC09Combiner) Combine(ctx context.Context, f frame.Frame) error {
+	return m.c.Combine(ctx, f)
+}
+func (m *VerifC09Combiner) Reader() (sliceio.Reader, error) { return m.c.Reader() }
+func (m *VerifC09Combiner) WriteTo(ctx context.Context, enc *sliceio.Encoder) (int64, error) {
+	return m.c.WriteTo(ctx, enc)
+}
+func (m *VerifC09Combiner) Discard() error        { return m.c.Discard() }
+func (m *VerifC09Combiner) Frame() *VerifC09Frame { return &VerifC09Frame{m.c.comb} }
+func (m *VerifC09Combiner) SpillDir() string      { return string(m.c.spiller) }
+func (m *VerifC09Combiner) Total() int            { return m.c.total }
+func (m *VerifC09Combiner) TargetSize() int       { return m.c.targetSize }
+
+// VerifC09SetSizes points combiningFrameInitSize and combiningFrameScratchSize
+// (the sizes newCombiner builds its frame with) at the given values and returns
+// a function restoring the previous pointers.
+func VerifC09SetSizes(init, scratch int) (restore func()) {
+	i0, s0 := combiningFrameInitSize, combiningFrameScratchSize
+	combiningFrameInitSize, combiningFrameScratchSize = &init, &scratch
+	return func() { combiningFrameInitSize, combiningFrameScratchSize = i0, s0 }
+}
